@@ -242,7 +242,7 @@ def run_constraint(case, R):
                 cons = OP.TotalSpendConstraint(t=ct, budget_factor=[float(rng.choice([1.0, 0.5, 2.0])) for _ in ct] if rng.random() < 0.5 else 1.0)
             else:
                 ct = [years[0]]
-                cons = OP.TotalSpendConstraint(total_spend=[float(10 ** rng.uniform(2, 8))], t=ct, budget_factor=float(rng.choice([1.0, 1.0, 0.5, 1.5, 2.0])))  # (the required total is total_spend x budget_factor)
+                cons = OP.TotalSpendConstraint(total_spend=[float(10 ** rng.uniform(2, 8)) if rng.random() > 0.15 else (0.0 if rng.random() < 0.5 else 0)], t=ct, budget_factor=float(rng.choice([1.0, 1.0, 0.5, 1.5, 2.0])))  # (the required total is total_spend x budget_factor)
             opt = OP.Optimization(adjustments=adjustments, measurables=[OP.MinimizeMeasurable("ch_prev", 2025)], constraints=[cons])
             try:
                 x0, xmin, xmax = opt.get_initialization(pset, instr)
